@@ -231,6 +231,21 @@ fn main() {
         }).reduce(Stats::default, Stats::merge);
         total = total.merge(st);
     }
+    // repetition: the same section operation given twice in one invocation, and two spellings of one index (0 / -len / ~len)
+    let mut s_rep = Stats::default();
+    for env in &envs {
+        let alpha = alphabet_for(env, !quick);
+        let secs: Vec<&Op> = alpha.iter().filter(|o| matches!(o, Op::SecOverride(..) | Op::SecBump(..))).collect();
+        for (i, a) in secs.iter().enumerate() { for b in secs.iter().skip(i) {
+            let same_target = match (a, b) { (Op::SecOverride(s1, i1, _), Op::SecOverride(s2, i2, _)) | (Op::SecBump(s1, i1, _), Op::SecBump(s2, i2, _)) | (Op::SecOverride(s1, i1, _), Op::SecBump(s2, i2, _)) | (Op::SecBump(s1, i1, _), Op::SecOverride(s2, i2, _)) => s1 == s2 && bump::resolve_index(&env.init.schema, s1, i1) == bump::resolve_index(&env.init.schema, s2, i2) && bump::resolve_index(&env.init.schema, s1, i1).is_some(), _ => false };
+            if !same_target { continue; }
+            s_rep.inc("repetition_cases");
+            let ops = vec![(*a).clone(), (*b).clone()];
+            let first = judge(&ctx, env, &ops, &[0, 1], None, &mut s_rep);
+            let _ = judge(&ctx, env, &ops, &[1, 0], Some(&first), &mut s_rep);
+        }}
+    }
+    let total = total.merge(s_rep);
     // invalid targets (each must be rejected without output) and boundary amounts
     let mut s2 = Stats::default();
     for env in &envs {
@@ -333,7 +348,7 @@ fn main() {
     cov.evaluations = cov.transitions;
     cov.traces_validated = cov.transitions;
     cov.distinct_nontrivial = all.get("model_ok");
-    cov.rule = format!("flag-instance alphabets of sizes {alpha_sizes:?} per (start version x schema) environment ({} environments: 9 start versions incl. a number-less beta pre-release x 4 schemas): every subset up to size 3 (2 for the literal-heavy schema in quick) run through the real clap parser + run_version_pipeline with --output-format zerv and compared (schema + vars) with R-BUMP; permutations: all orders for subsets up to size {} and the reversed order above; invalid targets and boundary amounts enumerated per section; chaining: every single op, then every op set of size <= {} via --source stdin, model continued from the intermediate state. non-trivial = runs where the model predicts success and the full state is compared", envs.len(), if quick { 2 } else { 3 }, if quick { 1 } else { 2 });
+    cov.rule = format!("flag-instance alphabets of sizes {alpha_sizes:?} per (start version x schema) environment ({} environments: 9 start versions incl. a number-less beta pre-release x 4 schemas): every subset up to size 3 (2 for the literal-heavy schema in quick) run through the real clap parser + run_version_pipeline with --output-format zerv and compared (schema + vars) with R-BUMP; permutations: all orders for subsets up to size {} and the reversed order above; repetition: every pair of section operations (override/override, bump/bump, override/bump; same or different spelling) that denote one component, in both orders; invalid targets and boundary amounts enumerated per section; chaining: every single op, then every op set of size <= {} via --source stdin, model continued from the intermediate state. non-trivial = runs where the model predicts success and the full state is compared", envs.len(), if quick { 2 } else { 3 }, if quick { 1 } else { 2 });
     cov.exhaustive = true;
     cov.samples = vec![json!({"start":"1.2.3-rc.4","schema":"standard-base-prerelease-post-dev","argv":["--bump-major","--patch","3","--bump-extra-core=~1"]}), json!({"start":"stdin-u64max","schema":"ron-literals","argv":["--bump-major=2"]}), json!({"chain":["--bump-minor"],"then":["--core=0=4"]})];
     cov.set("clause_counts", all.to_json());
